@@ -303,9 +303,11 @@ fn record_aio(stats: &mut Stats, c: &AioCounters, budget: u64) {
 impl C16 {
     fn run(&self, p: &Plan, stats: &mut Stats) -> Option<Violation> {
         let counters: SharedAio = Arc::new(Mutex::new(AioCounters::default()));
-        // generous poll budget (liveness: progress within a bounded number of polls): every
-        // scenario needs far fewer than 2 polls per byte moved one byte at a time, plus gates
+        // generous poll budget (liveness: progress within a bounded number of polls): one byte at a
+        // time with a Pending before every completion costs 2 polls per byte moved, plus gates; the
+        // file kinds add 16 (queries: 256, they re-read) polls per byte of their file
         counters.lock().unwrap().budget = 40_000_000;
+        let widen = |per_byte: u64, len: usize| counters.lock().unwrap().budget = 40_000_000 + per_byte * len as u64;
         match &p.scenario {
             AScenario::BgzfWriter { level, payload, ops } => {
                 let comp = "bgzf::async::io::Writer";
@@ -398,6 +400,7 @@ impl C16 {
                     stats.probe("kinds_without_async_reader_skipped", 1);
                     return None;
                 }
+                widen(16, made.bytes.len());
                 let o0 = kinds::read(file.kind, *variant, Source::plain(made.bytes.clone()));
                 let src = SimAsyncRead::new(made.bytes.clone(), p.aio.clone(), counters.clone());
                 let r = aexec::run(&p.aio, counters.clone(), || faio::aread(file.kind, *variant, src, p.workers));
@@ -436,6 +439,7 @@ impl C16 {
                     stats.probe("models_the_async_writer_cannot_be_configured_for_skipped", 1);
                     return None;
                 }
+                widen(16, made.bytes.len());
                 let sink = SimAsyncWrite::new(p.aio.clone(), counters.clone());
                 let s2 = sink.clone();
                 let r = crate::kernel::fresh_thread(|| aexec::run(&p.aio, counters.clone(), || faio::awrite(file.kind, &made.model, s2, p.workers)));
@@ -490,6 +494,7 @@ impl C16 {
                     return None;
                 }
                 let o0 = crate::fmt::observe(|o| crate::fmt::query::query(file.kind, &made.bytes, dk, data.clone(), &mut o.items));
+                widen(256, data.len());
                 let src = SimAsyncRead::new(data.clone(), p.aio.clone(), counters.clone());
                 let idx_bytes = made.bytes.clone();
                 let r = aexec::run(&p.aio, counters.clone(), || faio::aquery(file.kind, idx_bytes, dk, src, p.workers));
@@ -529,7 +534,9 @@ impl Check for C16 {
         true
     }
     fn watchdog_s(&self) -> u64 {
-        30
+        // one query scenario over a large CRAM under 1-byte-ish partial reads and p=1/2 Pending
+        // legitimately takes ~10 s
+        120
     }
     fn n_cases(&self, tier: Tier) -> u64 {
         match tier {
